@@ -32,8 +32,21 @@ ASSUMPTIONS = [
 known_labels = {e['id'] for e in common.load_known(ID) if e.get('status') == 'known'}
 
 
+class Gen09(hist.HistGen):
+    """some steps are not followed by the harness's own read (wrapped as ["noobs", op]), so that
+    the code meets expired documents that nothing has removed yet"""
+
+    def history(self, n):
+        ops = []
+        for _ in range(n):
+            op = self.op()
+            p = 0.5 if op[0] == 'clock' else 0.25
+            ops.append(['noobs', op] if self.r.random() < p else op)
+        return ops
+
+
 def histgen(rng, oids):
-    hg = hist.HistGen(rng, oids, weights=dict(
+    hg = Gen09(rng, oids, weights=dict(
         insert_one=20, insert_many=6, update_one=8, update_many=3, replace_one=3,
         delete_one=3, delete_many=2, find=5, count=4, distinct=3, create_index=9,
         drop_index=3, drop_indexes=2, drop=1, clock=14), ttl=True, embedded_ids=True)
@@ -102,8 +115,8 @@ class Shadow(object):
         elif k in ('drop_indexes', 'drop'):
             self.ttl = {}
 
-    def expired(self, doc):
-        for spec in self.ttl.values():
+    def expired(self, doc, ttl=None):
+        for spec in (self.ttl if ttl is None else ttl).values():
             if spec is None:
                 continue
             field, secs = spec
@@ -117,8 +130,29 @@ def oracle(history, steps):
     fails = []
     sh = Shadow()
     prev_docs = []
+    certain = True
+    uniq = False
     for i, st in enumerate(steps):
+        ttl_before = dict(sh.ttl)
         sh.apply(st)
+        # an insert may be refused as duplicate only by a VISIBLE document (or a unique index)
+        if st.op[0] == 'insert_one' and st.out[0] == 'err' and st.out[1] == 'DuplicateKeyError' \
+                and certain and not uniq and isinstance(st.op[1], dict) and '_id' in st.op[1]:
+            if not any(d.get('_id') == st.op[1]['_id'] and not sh.expired(d) for d in prev_docs):
+                fails.append((i, 'expired-blocks-insert', 'insert of _id %r refused at %d although '
+                              'no visible document has it (ttl %r, documents %r)'
+                              % (st.op[1]['_id'], sh.now, sh.ttl, prev_docs)))
+        if st.op[0] == 'create_index' and st.op[2].get('unique'):
+            uniq = True
+        if st.obs is None:
+            # unobserved step: the last observation stays valid only across clock moves
+            if st.op[0] != 'clock':
+                certain = False
+            if any(l not in known_labels for (_, l, _) in fails):
+                break
+            continue
+        was_certain = certain
+        certain = True
         docs = st.obs.get('docs') if isinstance(st.obs, dict) else None
         if not isinstance(docs, list):
             fails.append((i, 'observation', 'find({}) raised: %r' % (docs,)))
@@ -128,11 +162,14 @@ def oracle(history, steps):
                 fails.append((i, 'visible-expired', 'expired document still visible at %d: %r '
                               '(ttl %r)' % (sh.now, d, sh.ttl)))
         # a document may only vanish through a delete, a drop, or because the rule says so
-        if st.op[0] in ('clock', 'find', 'count', 'distinct', 'insert_one', 'insert_many',
-                        'create_index', 'drop_index', 'drop_indexes'):
+        if was_certain and st.op[0] in ('clock', 'find', 'count', 'distinct', 'insert_one',
+                                        'insert_many', 'create_index', 'drop_index',
+                                        'drop_indexes'):
             now_ids = {freeze(x.get('_id')) for x in docs if isinstance(x, dict)}
             for d in prev_docs:
-                if freeze(d.get('_id')) not in now_ids and not sh.expired(d):
+                # (drop_index runs the expiry pass before it removes the index)
+                if freeze(d.get('_id')) not in now_ids and not sh.expired(d) and not \
+                        (st.op[0] in ('drop_index',) and sh.expired(d, ttl_before)):
                     fails.append((i, 'removed-unexpired', '%s made an unexpired document vanish '
                                   'at %d: %r (ttl %r)' % (st.op[0], sh.now, d, sh.ttl)))
         prev_docs = docs
@@ -146,6 +183,8 @@ def nontrivial(history, steps):
     prev = []
     for st in steps:
         sh.apply(st)
+        if st.obs is None:
+            continue
         docs = st.obs.get('docs') if isinstance(st.obs, dict) else None
         if not isinstance(docs, list):
             return False
